@@ -11,6 +11,7 @@ import multiprocessing as mp
 import os
 from collections.abc import Callable, Iterable
 from concurrent.futures import FIRST_COMPLETED, Future, ProcessPoolExecutor, wait
+from concurrent.futures.process import BrokenProcessPool
 from typing import Any
 
 from .driver import Obs, Opts, job_run_files
@@ -31,14 +32,41 @@ def _init_worker() -> None:
 
 
 _POOL: ProcessPoolExecutor | None = None
+_SUBMITTED = 0
+# mypy builds accumulate memory in a long-lived worker, so the pool is replaced after this many jobs.  (The executor's own
+# max_tasks_per_child is not used: on CPython 3.12.1 it can deadlock when workers exit while jobs are queued.)
+RECYCLE_AFTER = NWORKERS * int(os.environ.get("VERIF_JOBS_PER_WORKER", "100"))
+MAX_RETRIES = 2
 
 
 def pool() -> ProcessPoolExecutor:
     global _POOL
     if _POOL is None:
-        # workers are recycled after 120 jobs: mypy builds accumulate memory in a long-lived process
-        _POOL = ProcessPoolExecutor(max_workers=NWORKERS, mp_context=mp.get_context("spawn"), initializer=_init_worker, max_tasks_per_child=120)
+        _POOL = ProcessPoolExecutor(max_workers=NWORKERS, mp_context=mp.get_context("spawn"), initializer=_init_worker)
     return _POOL
+
+
+def _submit(fn: Callable, *args: Any) -> Future:
+    global _SUBMITTED
+    _SUBMITTED += 1
+    return pool().submit(fn, *args)
+
+
+def _need_recycle() -> bool:
+    return _SUBMITTED >= RECYCLE_AFTER
+
+
+def _recycle(wait_: bool = True) -> None:
+    """Replace the pool (only called when no job is in flight, or after the pool broke)."""
+    global _POOL, _SUBMITTED
+    if _POOL is not None:
+        _POOL.shutdown(wait=wait_, cancel_futures=True)
+        _POOL = None
+    _SUBMITTED = 0
+
+
+def _worker_died_obs() -> Obs:
+    return Obs(outcome="crash", exc_type="WorkerDied", exc_msg="the worker process running this job died repeatedly", exc_frame="<worker>")
 
 
 def shutdown_pool() -> None:
@@ -50,25 +78,54 @@ def shutdown_pool() -> None:
 
 def run_jobs(jobs: Iterable[tuple[Any, Callable, tuple]], on_result: Callable[[Any, Any], None], max_inflight: int | None = None) -> None:
     """Run (tag, fn, args) jobs on the pool; call on_result(tag, value) in the parent as they complete."""
-    max_inflight = max_inflight or NWORKERS * 3
-    ex = pool()
-    pending: dict[Future, Any] = {}
+    max_inflight = base_inflight = max_inflight or NWORKERS * 3
+    pending: dict[Future, tuple[Any, Callable, tuple, int]] = {}
+    retry: list[tuple[Any, Callable, tuple, int]] = []
     it = iter(jobs)
     exhausted = False
     while True:
-        while not exhausted and len(pending) < max_inflight:
-            try:
-                tag, fn, args = next(it)
-            except StopIteration:
-                exhausted = True
+        if not retry and not any(p[3] for p in pending.values()):
+            max_inflight = base_inflight
+        while not _need_recycle() and len(pending) < max_inflight:
+            if retry:
+                tag, fn, args, n = retry.pop()
+            elif exhausted:
                 break
-            pending[ex.submit(fn, *args)] = tag
+            else:
+                try:
+                    tag, fn, args = next(it)
+                    n = 0
+                except StopIteration:
+                    exhausted = True
+                    continue
+            pending[_submit(fn, *args)] = (tag, fn, args, n)
         if not pending:
+            if _need_recycle():
+                _recycle()
+                continue
             break
         done, _ = wait(list(pending), return_when=FIRST_COMPLETED)
+        broken = False
         for f in done:
-            tag = pending.pop(f)
-            on_result(tag, f.result())
+            tag, fn, args, n = pending.pop(f)
+            try:
+                value = f.result()
+            except BrokenProcessPool:
+                broken = True
+                if n >= MAX_RETRIES:
+                    value = _worker_died_obs()
+                else:
+                    retry.append((tag, fn, args, n + 1))
+                    continue
+            on_result(tag, value)
+        if broken:
+            # every other in-flight job failed with the pool; run them again on a fresh one (serially if they keep failing)
+            for f in list(pending):
+                tag, fn, args, n = pending.pop(f)
+                retry.append((tag, fn, args, n))
+            _recycle(wait_=False)
+            if any(n >= 1 for *_x, n in retry):
+                max_inflight = 1  # isolate the job that kills its worker
 
 
 def run_packed(
@@ -83,40 +140,43 @@ def run_packed(
     crash, and for every single-unit group whatever its outcome.
     """
     stats = stats if stats is not None else {}
-    ex = pool()
-    pending: dict[Future, tuple[list[Any], Opts, dict[str, str]]] = {}
-    queue: list[tuple[list[Any], Opts]] = []
-    it = iter(groups)
-    exhausted = False
+    files_of: dict[int, dict[str, str]] = {}
 
-    def submit(units: list[Any], opts: Opts) -> None:
-        files, src_rel = build(units)
-        pending[ex.submit(job_run_files, files, src_rel, opts)] = (units, opts, files)
-        stats["tool_runs"] = stats.get("tool_runs", 0) + 1
-
-    while True:
-        while len(pending) < NWORKERS * 2:
+    def jobs():  # noqa: ANN202
+        k = 0
+        it = iter(groups)
+        while True:
             if queue:
-                submit(*queue.pop())
-                continue
-            if exhausted:
-                break
-            try:
-                g = next(it)
-            except StopIteration:
-                exhausted = True
-                break
-            submit(*g)
-        if not pending:
-            break
-        done, _ = wait(list(pending), return_when=FIRST_COMPLETED)
-        for f in done:
-            units, opts, files = pending.pop(f)
-            obs: Obs = f.result()
-            if obs.outcome in ("crash", "timeout", "outside_domain") and len(units) > 1:
-                stats["bisections"] = stats.get("bisections", 0) + 1
-                mid = len(units) // 2
-                queue.append((units[:mid], opts))
-                queue.append((units[mid:], opts))
+                units, opts = queue.pop()
             else:
-                on_group(units, opts, obs, files)
+                try:
+                    units, opts = next(it)
+                except StopIteration:
+                    if queue:
+                        continue
+                    return
+            files, src_rel = build(units)
+            k += 1
+            files_of[k] = files
+            stats["tool_runs"] = stats.get("tool_runs", 0) + 1
+            yield (k, units, opts), job_run_files, (files, src_rel, opts)
+
+    queue: list[tuple[list[Any], Opts]] = []
+
+    def on(tag, obs: Obs) -> None:  # noqa: ANN001
+        k, units, opts = tag
+        files = files_of.pop(k)
+        if obs.outcome in ("crash", "timeout", "outside_domain") and len(units) > 1:
+            stats["bisections"] = stats.get("bisections", 0) + 1
+            mid = len(units) // 2
+            queue.append((units[:mid], opts))
+            queue.append((units[mid:], opts))
+        else:
+            on_group(units, opts, obs, files)
+
+    # bisection adds work while the generator may already be exhausted, so loop until nothing is left
+    while True:
+        run_jobs(jobs(), on, max_inflight=NWORKERS * 2)
+        if not queue:
+            break
+        groups = []
